@@ -161,6 +161,99 @@ class SaslLowerer(Lowerer):
             return self.expr(n0['inner'][0])
         return Lowerer.expr(self, n)
 
+    # ---- QString::arg: the whole chain  fmt.arg(a).arg(b)...  is lowered at its outermost call (qtmodel/terms.h explains the model)
+    def membercall(self, n):
+        me = self.skip(n['inner'][0])
+        if me.get('kind') == 'MemberExpr' and me.get('name') == 'arg' and self.tkey(self.skip(me['inner'][0])) == 'QS':
+            return self.qs_arg_chain(n)
+        return Lowerer.membercall(self, n)
+
+    def qs_arg_chain(self, n):
+        calls = []
+        cur = self.skip(n)
+        while cur.get('kind') == 'CXXMemberCallExpr':
+            me = self.skip(cur['inner'][0])
+            if me.get('kind') != 'MemberExpr' or me.get('name') != 'arg' or self.tkey(self.skip(me['inner'][0])) != 'QS':
+                break
+            calls.append([a for a in cur['inner'][1:] if a.get('kind') != 'CXXDefaultArgExpr'])
+            cur = self.skip(me['inner'][0])
+        calls.reverse()
+        fmt = find_string(cur) if cur.get('kind') in ('StringLiteral', 'UserDefinedLiteral', 'CXXConstructExpr') else None
+        if fmt is None and cur.get('kind') == 'UserDefinedLiteral':
+            fmt = self.udl_from_source(cur)
+        self.fire('QString::arg:chain')
+
+        def qs_args(argn):
+            out = []
+            for a in argn:
+                if self.tkey(self.skip(a)) != 'QS':
+                    raise Unsupported('QString::arg with an argument of type %s' % self.tkey(self.skip(a)))
+                e = self.addr(self.skip(a))
+                if not re.fullmatch(r'&?\w+(->\w+)*', e):      # evaluate once
+                    t = self.newtmp()
+                    self.pre.append('QS %s = %s;' % (t, strip_amp(e)))
+                    e = '&' + t
+                out.append(e)
+            return out
+
+        def opaque(cur_e, args):
+            for a in args:
+                t = self.newtmp()
+                self.pre.append('QS %s; QS_arg_opaque(&%s, %s, %s);' % (t, t, cur_e, a))
+                cur_e = '&' + t
+            return cur_e
+        if fmt is None:
+            # the format is not a literal: every substitution is an opaque term
+            cur_e = self.addr(cur)
+            for argn in calls:
+                cur_e = opaque(cur_e, qs_args(argn))
+            return strip_amp(cur_e)
+        if re.search(r'%L?\d', fmt) is None or '%L' in fmt:
+            raise Unsupported('QString::arg on the literal format %r' % fmt)
+        pieces = [('mark', int(p[1:])) if re.fullmatch(r'%\d\d?', p) else ('lit', p) for p in re.split(r'(%\d\d?)', fmt) if p != '']
+
+        def concat(pcs):
+            cur_e = None
+            for kind, v in pcs:
+                e = v if kind == 'arg' else '&' + self.literal_seq(v if kind == 'lit' else '%%%d' % v, 'QS')
+                if cur_e is None:
+                    cur_e = e
+                else:
+                    t = self.newtmp()
+                    self.pre.append('QS %s; QS_concat(&%s, %s, %s);' % (t, t, cur_e, e))
+                    cur_e = '&' + t
+            if cur_e is None:
+                cur_e = '&' + self.literal_seq('', 'QS')
+            return cur_e
+        earlier = []          # arguments substituted by earlier calls of the chain
+        cur_e = None          # C value of the string so far (None: still the literal format)
+        dirty = None          # C bool: some earlier substituted text contains a '%'
+        for argn in calls:
+            args = qs_args(argn)
+            marks = sorted(set(v for k, v in pieces if k == 'mark'))
+            if len(marks) < len(args):
+                raise Unsupported('QString::arg: more arguments than place markers left in %r' % fmt)
+            for i, (k, v) in enumerate(pieces):
+                if k == 'lit' and v.endswith('%') and i + 1 < len(pieces) and pieces[i + 1][0] == 'arg':
+                    raise Unsupported('QString::arg: a literal %% directly before substituted text')
+            sub = dict(zip(marks, args))          # one pass: lowest marker <- first argument, ...
+            before = concat(pieces) if earlier else None
+            pieces = [('arg', sub[v]) if k == 'mark' and v in sub else (k, v) for k, v in pieces]
+            clean = concat(pieces)
+            if not earlier:
+                cur_e = clean
+            else:
+                d = self.newtmp()
+                self.pre.append('bool %s = %s%s;' % (d, (dirty + ' || ') if dirty else '', ' || '.join('QS_has_percent(%s)' % a for a in earlier)))
+                dirty = d
+                r = self.newtmp()
+                self.pre.append('QS %s = %s;   /* value if no earlier substituted text contains a place marker */' % (r, strip_amp(clean)))
+                o = opaque(cur_e if cur_e else before, args)
+                self.pre.append('if (%s) %s = %s;' % (d, r, strip_amp(o)))
+                cur_e = '&' + r
+            earlier = earlier + args
+        return strip_amp(cur_e)
+
     def fncall(self, n):
         rd = self.callee_ref(n)
         if rd.get('name') == 'transform' and len(n['inner']) == 6:
@@ -381,6 +474,9 @@ def profile():
         'op!=:BA:BA': ('fn', 'BA_ne'),
         'BA::operator QByteArray/0': ('arg', 0),
         'BA::isEmpty/0': ('fn', 'BA_isEmpty'),
+        'BA::size/0': ('fn', 'BA_size'), 'BA::length/0': ('fn', 'BA_size'), 'BA::count/0': ('fn', 'BA_size'),
+        'BA::at/1': ('fn', 'BA_at'), 'op[]:BA:int': ('fn', 'BA_at'), 'op[]:BA:unsigned int': ('fn', 'BA_at'),
+        'fn:fromUtf8/1': ('fnret', 'QS_fromUtf8', 'QS'),
         'BA::startsWith/1': ('fn', 'BA_startsWith'),
         'BA::toBase64/0': ('fnret', 'BA_toBase64', 'BA'),
         'BA::toHex/0': ('fnret', 'BA_toHex', 'BA'),
@@ -440,7 +536,6 @@ def profile():
         'op[]:DMap:BA': map_index,
         'BA::split/1': ('fnret', 'BA_split', 'BAList'),
         'BAList::contains/1': ('fn', 'BAList_contains'),
-        'QS::arg/2': qstring_arg,
         '*::serviceType/0': base_getter('QXmppSaslClient_serviceType', 'QS'),
         '*::host/0': base_getter('QXmppSaslClient_host', 'QS'),
         # constructors
